@@ -1385,6 +1385,10 @@ func (p *bprover) atomFacts1(a atom) []bfact {
 				if b.hasLo && b.lo >= 1 {
 					e, ok := p.linOf(x.Y).sub(me)
 					add(e.addc(-1), ok, "rem<divisor")
+					// x = y*(x/y) + r with x/y >= 0: the remainder is at most the dividend, and not negative
+					e2, ok2 := p.linOf(x.X).sub(me)
+					add(e2, ok2, "rem<=dividend")
+					add(me, true, "rem>=0")
 				}
 			}
 		}
